@@ -74,7 +74,7 @@ impl State {
 impl VxDecodeSlot {
     pub uninterp spec fn pending(&self) -> bool;
     // `self.decode_state.lock().expect("lock").take()` (sequential model): the slot is emptied
-    #[verifier::external_body] pub fn vx_take(&mut self) ensures !final(self).pending() { unimplemented!() }
+    #[verifier::external_body] pub fn take(&mut self) ensures !final(self).pending() { unimplemented!() }
 }
 //@type vls-core/src/monitor.rs :: ChainMonitor
 
@@ -112,7 +112,7 @@ impl ChainMonitor {
         // the tracker refused never reaches on_*_streamed_block_end): the next on_block_start finds the fresh state it asserts
         !final(self).decode_state.pending(),                                                         //[C14.stream.start-drops-partial-decode-state] [C13.stream.start-drops-partial-decode-state]
         final(self).state == old(self).state, final(self).funding_outpoint == old(self).funding_outpoint,
-//@sub /self\.decode_state\.lock\(\)\.vx_expect\(\)\.take\(\);/ => self.decode_state.vx_take();
+//@sub /self\.decode_state\.lock\(\)\.vx_expect\(\)/ => (&mut self.decode_state)
 //@end
 
 //@fn vls-core/src/monitor.rs :: impl ChainMonitor :: is_done props=C15
